@@ -19,7 +19,7 @@ import (
 
 func init() {
 	commands["C10"] = runC10
-	commands["C02W"] = runC10
+	commands["C02"] = func(c runCfg) error { c02Mode = true; return runC10(c) }
 }
 
 type c10plan struct {
@@ -115,11 +115,20 @@ func c10PlanStr(pl c10plan, comps map[string]*dialect.Schema) string {
 	return pl.status + "|" + pl.gotype + "|" + dialect.Hx(pl.ctype) + "|" + hs + "|" + body
 }
 
+// C02 looks at more packages with fewer values each
+var c02Mode bool
+
 func c10Cases(c runCfg) ([]*scratch.Pkg, []string, map[string]interface{}) {
 	rng := rand.New(rand.NewSource(c.Seed))
 	npk, nval := 6, 6
 	if c.Thorough {
 		npk, nval = 60, 16
+	}
+	if c02Mode {
+		npk, nval = 24, 2
+		if c.Thorough {
+			npk, nval = 200, 3
+		}
 	}
 	g := &jgen{rng: rng, noNullAny: true}
 	var pkgs []*scratch.Pkg
@@ -161,6 +170,17 @@ func c10Cases(c runCfg) ([]*scratch.Pkg, []string, map[string]interface{}) {
 		for oi := 0; oi < 5; oi++ {
 			o := &dialect.Op{Method: []string{"GET", "POST", "DELETE"}[rng.Intn(3)]}
 			item := &dialect.PathItem{Raw: fmt.Sprintf("/r%d", oi), Ops: []*dialect.Op{o}}
+			// name derivation: trailing slash, the root path, nested and templated segments, an operationId
+			switch {
+			case oi == 4 && pi%2 == 0:
+				item.Raw = "/r4/"
+			case oi == 3 && pi%3 == 0:
+				item.Raw = "/"
+			case oi == 2 && pi%3 == 1:
+				item.Raw = "/r2/sub-item/x_y"
+			case oi == 1 && pi%4 == 2:
+				o.ID = "list-items_v2"
+			}
 			ncodes := 1 + rng.Intn(3)
 			perm := rng.Perm(len(c10Codes))[:ncodes]
 			var keys []string
@@ -225,6 +245,43 @@ func c10Cases(c runCfg) ([]*scratch.Pkg, []string, map[string]interface{}) {
 		lines = append(lines, DLine(p))
 		lines = append(lines, head...)
 		comps := compSchemas(sp)
+		// C02: the response document for the model of the generated response types, and per operation the
+		// documented set computed here (every inline response type, every name of each referenced component)
+		var yops []string
+		for k, op := range ops {
+			var rs []string
+			for i, pl := range op.plans {
+				switch {
+				case op.o.Responses[i].Ref != "":
+					rs = append(rs, pl.status+":c"+dialect.Hx(op.o.Responses[i].Ref))
+				case pl.kind == "json":
+					rs = append(rs, pl.status+":i1")
+				default:
+					rs = append(rs, pl.status+":i0")
+				}
+			}
+			yops = append(yops, fmt.Sprintf("@%d~%s", k, strings.Join(rs, "|")))
+		}
+		lines = append(lines, "Y "+pkg+" "+strings.Join(yops, "+")+" Created>-,Gone>NotFound,NotFound>-,Unexpected>-")
+		for k, op := range ops {
+			exp := map[string]bool{}
+			for i, pl := range op.plans {
+				switch op.o.Responses[i].Ref {
+				case "":
+					exp[strings.Replace(pl.gotype, "@", fmt.Sprintf("@%d", k), 1)] = true
+				case "NotFound", "Gone":
+					exp["NotFoundResponse"], exp["GoneResponse"] = true, true
+				default:
+					exp[op.o.Responses[i].Ref+"Response"] = true
+				}
+			}
+			var el []string
+			for n := range exp {
+				el = append(el, n)
+			}
+			sort.Strings(el)
+			lines = append(lines, fmt.Sprintf("I %s @%d %s:%s #exp=%s", pkg, k, op.o.Method, dialect.Hx(op.pi.Raw), strings.Join(el, ",")))
+		}
 		for _, op := range ops {
 			key := op.o.Method + ":" + dialect.Hx(op.pi.Raw)
 			var ps []string
@@ -367,6 +424,19 @@ func runC10(c runCfg) error {
 			}
 		}
 	}
+	// operation tokens of the I lines
+	opTokens := map[string]map[string]string{}
+	for _, l := range lines {
+		f := strings.Split(l, " ")
+		if f[0] == "I" && len(f) >= 4 {
+			if opTokens[f[1]] == nil {
+				opTokens[f[1]] = map[string]string{}
+			}
+			if n, ok := opname[f[1]+" "+f[3]]; ok {
+				opTokens[f[1]][f[2]] = n
+			}
+		}
+	}
 	impl := make([]string, len(lines))
 	var send []string
 	var idx []int
@@ -374,6 +444,20 @@ func runC10(c runCfg) error {
 	for i, l := range lines {
 		f := strings.Split(l, " ")
 		switch f[0] {
+		case "I":
+			p := byName[f[1]]
+			if p == nil || !p.OK() {
+				impl[i] = "SKIP pkg-unavailable"
+				continue
+			}
+			name, ok := opname[f[1]+" "+f[3]]
+			if !ok {
+				impl[i] = "impl=ERROR:no_such_operation"
+				continue
+			}
+			send = append(send, f[1]+" IMPL "+name)
+			idx = append(idx, i)
+			opOf = append(opOf, "")
 		case "V", "X":
 			p := byName[f[1]]
 			if p == nil || !p.OK() {
@@ -418,8 +502,25 @@ func runC10(c runCfg) error {
 		return err
 	}
 	for k, i := range idx {
-		// response type names relative to the operation's name
 		out := res[k]
+		if opOf[k] == "" {
+			// I line: type names relative to the operations of the package (@<k> = k-th operation in I-line order)
+			f := strings.Split(lines[i], " ")
+			var names []string
+			for _, n := range strings.Split(strings.TrimPrefix(out, "impl="), ",") {
+				for tok, on := range opTokens[f[1]] {
+					if strings.HasPrefix(n, on+"Response") {
+						n = tok + strings.TrimPrefix(n, on)
+						break
+					}
+				}
+				names = append(names, n)
+			}
+			sort.Strings(names)
+			impl[i] = "impl=" + strings.Join(names, ",")
+			continue
+		}
+		// response type names relative to the operation's name
 		out = strings.Replace(out, " kind="+opOf[k]+"Response", " kind=@Response", 1)
 		impl[i] = out
 	}
